@@ -288,12 +288,22 @@ def copyRec (kind : Kind) (src dst : ArmSt α) : ArmSt α :=
     { dst with inited := src.inited, A := src.A, Xty := src.Xty, Ainv := src.Ainv, beta := src.beta,
                rngPriv := true }
 
-def LP.copyArms (s : LP α) (m : List (α × α)) : LP α :=
-  let s1 := m.foldl (fun (s : LP α) p =>
-    match s.st.get? p.2 with
-    | some src => { s with st := s.st.modify p.1 (copyRec s.kind src) }
-    | none => s) s
-  s1.expOp
+/-- one `for cold_arm, warm_arm in cold_arm_to_warm_arm.items()` iteration of `_copy_arms` -/
+def LP.copyOne (s : LP α) (p : α × α) : LP α :=
+  match s.st.get? p.2 with
+  | some src => { s with st := s.st.modify p.1 (copyRec s.kind src) }
+  | none => s
+
+def LP.copyFold (s : LP α) (m : List (α × α)) : LP α := m.foldl LP.copyOne s
+
+/-- `_copy_arms` (Softmax recomputes its shares afterwards) -/
+def LP.copyArms (s : LP α) (m : List (α × α)) : LP α := (s.copyFold m).expOp
+
+def LP.markOne (s : LP α) (p : α × α) : LP α :=
+  { s with st := s.st.modify p.1 fun r => { r with warm := true, warmBy := some p.2 } }
+
+/-- the status updates at the end of `_warm_start` -/
+def LP.markWarm (s : LP α) (m : List (α × α)) : LP α := m.foldl LP.markOne s
 
 /-- `_warm_start`; `none` = the call raised (empty list of closest distances), state unchanged. -/
 def LP.warmStart (s : LP α) (keys : List α) (raw : α → α → Option Rat) (q : Rat) : Option (LP α) :=
@@ -302,10 +312,7 @@ def LP.warmStart (s : LP α) (keys : List α) (raw : α → α → Option Rat) (
   | _ =>
     match s.coldToWarm keys raw q with
     | none => none
-    | some m =>
-      let s1 := s.copyArms m
-      some (m.foldl (fun (s : LP α) p =>
-        { s with st := s.st.modify p.1 fun r => { r with warm := true, warmBy := some p.2 } }) s1)
+    | some m => some ((s.copyArms m).markWarm m)
 
 /-! ### prediction -/
 
